@@ -49,6 +49,9 @@ def c10(tier, seed):
             out.append({'line': setup + './pargs %s' % word, 'files': {'pargs': PARGS}, 'expect_stdout': _argv([val]), 'area': 'expand_env:unquoted'})
     out.append({'line': 'sh -c "exit 7"; ./pargs "$?" $?', 'files': {'pargs': PARGS}, 'expect_stdout': _argv(['7', '7']), 'area': 'expand_env:status'})
     out.append({'line': './pargs "a$?b"', 'files': {'pargs': PARGS}, 'expect_stdout': _argv(['a0b']), 'area': 'expand_env:status'})
+    # a value is inserted as text: a leading `~` in it is not the home directory; `$?` is refreshed by every command, also one that only assigns or cannot be planned
+    out.append({'line': "A='~/x'; B='~'; ./pargs $A ${A}y \"$A\" $B ${U}~/z", 'files': {'pargs': PARGS}, 'expect_stdout': _argv(['~/x', '~/xy', '~/x', '~', '~/z']), 'area': 'expand_env:value-with-a-leading-tilde'})
+    out.append({'line': 'sh -c "exit 3"; A=1; ./pargs $?; true; ./pargs x > ; ./pargs "${?}"', 'files': {'pargs': PARGS}, 'expect_stdout': _argv(['0']) + _argv(['1']), 'area': 'expand_env:status-after-a-line-without-a-pipeline'})
     # the single-quoted value of an assignment is never expanded -- names and the special parameters alike
     out.append({'line': "A='$?'; B='x$$y'; C='$HOME'; D='${?}'; ./pargs \"$A\" \"$B\" \"$C\" \"$D\"; alias st='echo $?'; sh -c 'exit 7'; st", 'files': {'pargs': PARGS},
                 'expect_stdout': _argv(['$?', 'x$$y', '$HOME', '${?}']) + '7\n', 'area': 'expand_env:single-quoted-assignment-value'})
@@ -114,6 +117,9 @@ def c11(tier, seed):
          'expect_stdout': _argv(['checking\nbody\nfirst\nround\ntested\nother']), 'area': 'substitution:function:output-of-the-test-commands'},
         {'line': './pargs `echo a`/x `echo a | cat`b `echo p q`r `echo s` `echo t`$HOME/u `echo v`\\ w; ./pargs `echo y`|cat', 'files': {'pargs': PARGS},
          'expect_stdout_prefix': _argv(['a/x', 'ab', 'p qr', 's']), 'expect_stdout_contains': _argv(['v w']) + _argv(['y']), 'area': 'substitution:backquote:text-behind-it'},
+        {'line': 'X=$(./tick); ./pargs $X; Y=`./tick`; ./pargs $Y; A=$(./tick) B=$(./tick); ./pargs $A$B; cat cnt', 'files': {'pargs': PARGS, 'tick': '#!/bin/sh\nn=$(cat cnt 2>/dev/null || echo 0); n=$((n+1)); echo $n > cnt; echo $n\n'},
+         'expect_stdout': _argv(['1']) + _argv(['2']) + _argv(['34']) + '4\n', 'area': 'substitution:assignment:runs-once'},
+        {'line': './pargs "a ` $(echo b)" "$(echo 1) ` $(echo 2)" "k ` $(echo \'$HOME\')"', 'files': {'pargs': PARGS}, 'expect_stdout': _argv(['a ` b', '1 ` 2', 'k ` $HOME']), 'area': 'substitution:lone-backquote-in-front'},
         {'line': 'X=old; X=$(./two); ./pargs "$X"; V=$(./two) printenv V', 'files': {'pargs': PARGS, 'two': '#!/bin/sh\necho l1\necho l2\n'}, 'expect_stdout': _argv(['l1\nl2']) + 'l1\nl2\n', 'area': 'substitution:assignment:multi-line-output'},
         {'line': 'cat <<< $(echo hs)', 'expect_stdout': 'hs\n', 'area': 'substitution:here-string'},
         {'line': './pargs x$(nosuchcmd-xyz)y', 'files': {'pargs': PARGS}, 'expect_stdout': _argv(['xy']), 'area': 'substitution:not-found', 'timeout': 5},
@@ -317,6 +323,9 @@ def c13(tier, seed):
     # a redirection written inside a command substitution is part of THAT command line: the word around it is still data
     out.append({'line': "X='>f'; ./pargs $X$(echo hi 2>/dev/null) $X`echo lo 2>/dev/null`", 'files': {'pargs': PARGS}, 'expect_stdout': _argv(['>fhi', '>flo']),
                 'expect_only_files': ['pargs'], 'area': 'data:value-next-to-a-substitution-with-a-redirection'})
+    # the here-string operator inside produced text
+    out.append({'line': "V='<<<zzz'; ./pargs a $V b \"$V\" \"k${V}\" $(printf '%s' '<<<q') \"`printf '%s' 'x<<<y'`\"", 'files': {'pargs': PARGS},
+                'expect_stdout': _argv(['a', '<<<zzz', 'b', '<<<zzz', 'k<<<zzz', '<<<q', 'x<<<y']), 'expect_only_files': ['pargs'], 'area': 'data:here-string-operator-in-a-value'})
     # an empty backquote pair in front does not shift where the later outputs (and their data tags) go
     out.append({'line': './pargs `` x `./gt` y', 'files': {'pargs': PARGS, 'gt': '#!/bin/sh\necho "a>b"\n'}, 'expect_stdout_contains': _argv(['', 'x', 'a>b', 'y']), 'expect_only_files': ['pargs', 'gt'], 'area': 'data:substitution:after-an-empty-backquote-pair'})
     names = ['a>b', 'x;y', 'p|q', 'r&', '#h', '2>&1']
@@ -347,6 +356,7 @@ def c17(tier, seed):
         {'line': "alias srt='sort|uniq'; alias te='true|./pargs'; printf 'b\\na\\nb\\n' | srt; te hi", 'files': P, 'expect_stdout': 'a\nb\n' + _argv(['hi']), 'area': 'alias:value-without-a-blank-is-still-a-command-line'},
         {'line': "alias ll='./pargs a'; alias LL='./pargs b'; alias | sort; ll; LL", 'files': P, 'expect_stdout': "alias LL='./pargs b'\nalias ll='./pargs a'\n" + _argv(['a']) + _argv(['b']), 'area': 'alias:names-differing-in-case'},
         {'line': "alias n=; unalias n; echo rc=$?; alias", 'files': P, 'expect_stdout': 'rc=0\n', 'area': 'alias:unalias-empty-value'},
+        {'line': "alias v1.2='./pargs dotted'; v1.2; unalias v1.2; echo rc=$?; alias; alias a-b_c.d=x; unalias a-b_c.d; alias", 'files': P, 'expect_stdout': _argv(['dotted']) + 'rc=0\n', 'area': 'alias:unalias:name-charset'},
         {'line': "alias e=''; alias e; e ./pargs hi; alias | grep -c 'e='; true | e ./pargs p", 'files': P, 'expect_stdout': "alias e=''\n" + _argv(['hi']) + '1\n' + _argv(['p']), 'area': 'alias:empty-value'},
         {'line': "alias -x='./pargs hi'; alias -x; alias x-y='./pargs yo'; alias x-y; alias .z='./pargs zz'; alias .z", 'files': P,
          'expect_stdout': "alias -x='./pargs hi'\nalias x-y='./pargs yo'\nalias .z='./pargs zz'\n", 'area': 'alias:name-charset:list-one'},
@@ -382,6 +392,9 @@ def c19(tier, seed):
              ('2147483648 + 2147483648', '4294967296'), ('9223372036854775807 + 0', '9223372036854775807'), ('1+2', '3'), ('  1   +   2  ', '3'),
              ('+1 + 2', '3'), ('-1 + 2', '1'), ('(+3) * 2', '6'),
              # IEEE double: a whole exponent beyond the i32 range is still an exponent; pow, not repeated multiplication
+             # + and - share one level and group from the left, also when the operands are far apart in magnitude
+             ('0.5 + 9223372036854775807 - 9223372036854775807', '0'), ('1.0 + 100000000000000000000 - 100000000000000000000', '0'), ('10.0 - 2 + 3', '11'), ('2.0 * 3 / 4', '1.5'),
+             ('9223372036854775807 / 2', '4611686018427387903'), ('9223372036854775806 / 9223372036854775807', '0'), ('9223372036854775807 / 2147483648', '4294967295'),
              ('-1.0 ^ 2147483648', '1'), ('-1.0 ^ 2147483649', '-1'), ('1.1 ^ 70', '789.7469567994436'), ('1.0000000001 ^ 10000000000', '2.7182820532347876'), ('2.0 ^ 0.5', '1.4142135623730951')]
     out = [{'line': l, 'expect_stdout': e + '\n', 'area': 'calculator:precedence', 'timeout': 5} for l, e in cases]
     for l in ('1 / 0', '9223372036854775807 + 1', '2 ^ 64', '99999999999999999999 + 1', '2 ^ (0 - 1)', '1 / 0.0', '(0 - 9223372036854775807 - 1) / (0 - 1)',
@@ -469,6 +482,9 @@ def c04(tier, seed):
     out = [
         {'line': './oe > f; echo --; cat f', 'files': F, 'expect_stdout': '--\nO\n', 'area': 'redirect:stdout'},
         {'line': './oe >f; echo --; cat f', 'files': F, 'expect_stdout': '--\nO\n', 'area': 'redirect:stdout:no-space'},
+        {'line': 'echo old > log; ./both >> log 2>> log; cat log; ./both 2>>log2 >>log2; cat log2', 'files': dict(F, both='#!/bin/sh\necho out1\necho err1 >&2\necho out2\n'),
+         'expect_stdout': 'old\nout1\nerr1\nout2\nout1\nerr1\nout2\n', 'area': 'redirect:append:two-descriptors-one-file'},
+        {'line': 'echo piped | cat <<< here; echo a | cat <<< b | cat', 'files': F, 'expect_stdout': 'here\nb\n', 'area': 'redirect:here-string:on-a-later-stage'},
         # KNOWN FINDING (recorded, not repaired): two redirection operators glued into one word -- the word is dropped, neither redirection happens
         {'line': './oe >a5>b5; echo --; cat b5; ls a5', 'files': F, 'expect_stdout': '--\nO\na5\n', 'area': 'redirect:two-operators-glued-in-one-word'},
         {'line': './oe 1> f; echo --; cat f', 'files': F, 'expect_stdout': '--\nO\n', 'area': 'redirect:stdout'},
@@ -568,6 +584,8 @@ def c09(tier, seed):
         {'line': 'read a b <<< "x   y    z  "; ./pargs "$a" "$b"; IFS=: read a b <<< x:y:z; ./pargs "$a" "$b"; IFS=: read a b c <<< "1::3:4"; ./pargs "$a" "$b" "$c"; read r <<< "  p   q "; ./pargs "$r"', 'files': F,
          'expect_stdout': _argv(['x', 'y    z']) + _argv(['x', 'y:z']) + _argv(['1', '', '3:4']) + _argv(['p   q']), 'area': 'read:the-remainder-is-the-rest-of-the-line-as-it-stands'},
         {'line': 'P=2 ./envp P | cat; P=2 true | ./envp P; export Q=1; Q=2 true | ./envp Q; Q=5 ./envp Q | cat', 'files': dict(F, envp='#!/bin/sh\neval "echo [\\$$1]"\n'), 'expect_stdout': '[2]\n[]\n[1]\n[5]\n', 'area': 'vars:prefix-assignment:first-stage-only'},
+        {'line': 'A=k=v:w; B="x=y z"; ./pargs "$A" "$B"; C=u=v printenv C; export E=1; E=p=q; printenv E; read a b <<< "x   y z"; ./pargs "$a" "$b"', 'files': F,
+         'expect_stdout': _argv(['k=v:w', 'x=y z']) + 'u=v\np=q\n' + _argv(['x', 'y z']), 'area': 'vars:value-with-an-equals-sign'},
         {'line': "A='a b'; A=; ./pargs \"[$A]\"; export B=x=y; B= printenv B; B=; printenv B; E=; C=$E; ./pargs \"$C\"", 'files': F, 'expect_stdout': _argv(['[]']) + '\n\n' + _argv(['']), 'area': 'vars:empty-value'},
         {'line': 'export B=old; read A B <<< "one two three"; printenv B; ./pargs "$A" "$B"', 'files': F, 'expect_stdout': 'two three\n' + _argv(['one', 'two three']), 'area': 'read:into-an-exported-name'},
         {'line': 'read a b c <<< "1 2 3 4"; ./pargs "$a" "$b" "$c"', 'files': F, 'expect_stdout': _argv(['1', '2', '3 4']), 'area': 'read'},
